@@ -116,6 +116,7 @@ impl Property for C17Prop {
         match case["kind"].as_str().unwrap_or("") {
             "repl" => check_repl(case, stats),
             "call" => check_call(case, stats),
+            "repeat" => check_repeat(case, stats),
             // a fixed REPL history that keeps a recorded finding visible under a signature of its own
             "probe" => match check_repl(case, stats) {
                 Verdict::Fail(f) => fail(case["sig"].as_str().unwrap_or("C17:probe").to_string(), f.msg),
@@ -124,6 +125,58 @@ impl Property for C17Prop {
             _ => Verdict::Discard("unknown kind"),
         }
     }
+}
+
+/// state that an execution needs is made by that execution: a program whose text makes cells,
+/// iterators and fillers in every position gives, on each of several executions of one parsed Code,
+/// what a fresh parse and a single execution give
+const FRESH_STATE: [&str; 14] = [
+    "it := [1]~ ? mut int; it(); c := it().1; c += 10; *c",
+    "it := [1, \"s\"]~ ? mut int|mut string; c := it().1; if k: mut int = c { k += 3; }; if k: mut string = c { k += \"x\"; }; c",
+    "it := [1]~ ? (mut int, int); t := it().1; c := t.0; c += 10; (*c, t.1)",
+    "it := [1]~ ? struct{a: mut int}; s := it().1; s.a += 10; *s.a",
+    "it := [1]~ ? [mut int]; a := it().1; (std.len(a), a)",
+    "it := [1]~ ? mut [int]; c := it().1; c += [7]; *c",
+    "it := [1]~ ? mut mut int; c := it().1; d := *c; d += 10; *(*c)",
+    "it := [mut 1, 2]~ ? mut int; a := it().1; a += 10; b := it().1; b += 100; (*a, *b)",
+    "it := [1, 2]~; it(); it(); it(); r := it(); r",
+    "it := [mut 1]~; a := it().1; a += 10; b := it().1; (*a, b)",
+    "it := [1]~ @ (x: int) -> mut int { return mut x; }; a := it().1; a += 10; b := it(); (*a, b.0)",
+    "for c in [mut 1, mut 2]~ { c += 10; }; s := [mut 1, mut 2]~ @ (c: mut int) -> int { return *c; } $+; s",
+    "p := [mut 1, mut 2]~ \\ (c: mut int) -> bool { c += 10; return *c > 11; }; (p.0, p.1)",
+    "t := mut 0; r := [mut 5]~ $ (mut 0) (acc: mut int, c: mut int) -> mut int { acc += *c; t += 1; return acc; }; r += 1; (*r, *t)",
+];
+
+fn check_repeat(case: &Json, stats: &mut Stats) -> Verdict {
+    let text = case["text"].as_str().unwrap_or("");
+    run::default_budget();
+    let expected = match exec::run_program(text, false).outcome {
+        Outcome::Rejected(_) => return Verdict::Discard("rejected by the checker"),
+        Outcome::Aborted(_) => return Verdict::Inconclusive("budget"),
+        o => shown(&o),
+    };
+    let interp = exec::safe_interpreter();
+    let Ok(Ok(code)) = run::parse_guarded(&interp, text) else {
+        return fail("C17:exec-repeat:parse", format!("`{text}` was accepted once and not the second time"));
+    };
+    stats.nontrivial(text);
+    stats.label("repeat: one Code executed four times");
+    for k in 1..=4 {
+        stats.eval();
+        run::default_budget();
+        let o = run::exec_guarded(&code);
+        if matches!(o, Outcome::Aborted(_)) {
+            return Verdict::Inconclusive("budget");
+        }
+        if shown(&o) != expected {
+            return fail(
+                "C17:exec-repeat:result",
+                format!("`{text}`\n  a fresh parse and one exec give: {expected}\n  exec number {k} of one parsed Code gives: {}", shown(&o)),
+            );
+        }
+    }
+    stats.sample(4, || json!({"program": text, "every_exec": expected}));
+    Verdict::Pass
 }
 
 fn check_repl(case: &Json, stats: &mut Stats) -> Verdict {
@@ -310,6 +363,9 @@ pub fn run(session: &Session) -> i32 {
                 }
             }
         }
+    }
+    for text in FRESH_STATE.iter().map(|t| t.to_string()).chain(crate::props::c16::isolated_code_programs()) {
+        cases.push(json!({"kind": "repeat", "text": text}));
     }
     // functions of every arity from 0 to 3 (user-written, native iterators, std functions) x
     // argument lists of 0 to 4 values
